@@ -29,7 +29,9 @@ CLASSES = (['allow', 'deny', 'unknown', 'emptyset', 'scope',
             # wrong scope AND a check that denies: still InvalidScope
             'scope-deny', 'eo-scope-deny',
             # enforce_scope OFF: a scope mismatch is only a warning
-            'softscope', 'eo-softscope', 'softscope-deny'] +
+            'softscope', 'eo-softscope', 'softscope-deny',
+            # a name the policy FILE defines but the service never registered
+            'fileonly-allow', 'fileonly-deny'] +
            ['ret-' + k for k in RET] +
            # a check OBJECT needs no named rules: empty rule store
            ['eo-allow', 'eo-deny', 'eo-scope', 'eo-ret-str'] +
@@ -77,7 +79,7 @@ def plan(tier, seed):
 def expected_class(cls):
     if cls.startswith('eo-'):
         cls = cls[3:]
-    if cls in ('allow', 'pw-allow', 'softscope') or cls in (
+    if cls in ('allow', 'pw-allow', 'softscope', 'fileonly-allow') or cls in (
             'ret-true', 'ret-one', 'ret-str', 'ret-tuple'):
         return 'allow'
     if cls in ('scope', 'scope-deny'):
@@ -117,6 +119,10 @@ def snapshot(x):
 
 def build(P, parse_rule, cls):
     w = world.FileWorld()
+    if cls.startswith('fileonly'):
+        w.write('policy.yaml', world.dumps_policy(
+            {'svc:fileonly-allow': 'vret:true',
+             'svc:fileonly-deny': 'vret:false'}, 'json'))
     conf = world.new_conf(w.root, enforce_scope='softscope' not in cls,
                           policy_dirs=[])
     enf = P.Enforcer(conf)
@@ -155,6 +161,7 @@ def rule_for(P, parse_rule, cls, how):
         return None
     text = {'allow': 'role:r', 'deny': 'role:nope', 'scope': '@',
             'scope-deny': 'role:nope', 'softscope': '@',
+            'fileonly-allow': 'vret:true', 'fileonly-deny': 'vret:false',
             'softscope-deny': 'role:nope',
             'pw-allow': "'secret':%(password)s and 'tok':%(auth_token)s"
             }.get(cls, 'vret:' + cls[4:])
@@ -200,7 +207,8 @@ def run(job, seed):
             rule = rule_for(P, _parser.parse_rule, cls, how)
             if rule is None:
                 continue
-            registered = how == 'name' and cls not in ('unknown', 'emptyset')
+            registered = how == 'name' and cls not in (
+                'unknown', 'emptyset', 'fileonly-allow', 'fileonly-deny')
             for rep, tk, exc, args, kwargs in itertools.product(
                     ('dict', 'context', 'values'),
                     ('plain', 'nested', 'lock'), (None, MyExc),
